@@ -8,6 +8,12 @@
     the returned offset, `Buf` is the buffer up to the returned offset, and the raw-message view is exactly the
     bytes from the start offset (the offset given to the first call) to the returned offset:
     `start ≤ h ≤ o' ≤ len(buf)`, `body = [h, o')`, `RawMsg = [start, o')`, `len(Buf) = o'`.
+  * **containment in the consumed region, upper bound** (`fields_inside_consumed`, `fields_inside_consumed_schedule_init`,
+    `consumed_meaning`): after a successful ParseSIPMsg — one call on any legitimate object, or any chain of resumed
+    calls from Init — EVERY reported field ends at or before the returned offset: the five first-line fields, name and
+    value of every stored header and of every first-of-type shortcut, From / To (name, URI, tag, parameters, value),
+    Call-ID, the CSeq number / method / value, the Content-Length and Expires digit strings, every stored contact and
+    identity value (all their sub-fields) and the running header value of the Contact / PAI lines, and the body.
   * **containment in the buffer** (`fields_inside_buffer`): whatever the verdict, every reported field (first line,
     all header slots, shortcuts, header values, contacts, identities, body) lies inside the buffer of the call
     (this is the C04 theorem; restated because callers slice the buffer with these fields).
@@ -15,8 +21,9 @@
     specification theorems: method < URI < version, resp. version < status code < reason, each exactly the token
     of the text).
   NOT yet proved (decided by the containment oracle on generated and hostile inputs and by the correspondence):
-  the upper bound "inside the consumed region" (≤ returned offset rather than ≤ len(buf)) for stored headers and
-  contact values, the lower bound (≥ start offset), header order / non-overlap, and the nesting of sub-fields.
+  the lower bound (≥ start offset), header order / non-overlap, "name and value inside the header's own line" and the
+  nesting of sub-fields (for generic header lines the C07 theorems give name / value exactly; C09 gives the exact
+  spans of name-addr values, from which nesting follows for values of its grammar).
 -/
 import Sipsp.Proofs.Layout
 import Sipsp.Properties.C01
@@ -82,6 +89,69 @@ theorem layout_schedule_init (flags : Nat) (o : Nat) (m0 : PSIPMsg) (len kh kc :
   simp only [hinit, ↓reduceIte] at hl
   obtain ⟨h, h1, h2, h3, h4⟩ := hl
   exact ⟨b, hb, h, h1, h2, h3, h4⟩
+
+/-- **every reported field lies inside the consumed region (upper bound), one call** -/
+theorem fields_inside_consumed (b : Buf) (o : Nat) (m : PSIPMsg) (flags : Nat) (hfit : b.size ≤ 65535)
+    (hok : msgOK2 b o m) (H : MsgSafe b o m) {o' : Nat} {m' : PSIPMsg}
+    (hr : parseSIPMsg b o m flags = (o', .ok, m')) : MsgRelIn b o' m' ∧ m'.body.inside o' := by
+  have hT := parseSIPMsg_safe b o m flags hfit hok H
+  rw [hr] at hT
+  exact hT.inn rfl
+
+/-- … under every chunk schedule, from Init -/
+theorem fields_inside_consumed_schedule_init (flags : Nat) (o : Nat) (m0 : PSIPMsg) (len kh kc : Nat)
+    (hdrs cts : Option Unit) (l : List Buf) (hg : Growing l) (hfit : ∀ x ∈ l, x.size ≤ 65535) (hne : l ≠ [])
+    (ho : ∀ b ∈ l, o ≤ b.size) {o' : Nat} {m' : PSIPMsg}
+    (hr : resumeRun (C01.msgP flags) o
+      (m0.init len (hdrs.map fun _ => Array.replicate kh {}) (cts.map fun _ => Array.replicate kc {})) l = (o', .ok, m')) :
+    ∃ b ∈ l, MsgRelIn b o' m' ∧ m'.body.inside o' := by
+  have h0 : ∀ b ∈ l.head?, o ≤ b.size := by
+    intro b hb
+    cases l with
+    | nil => cases hb
+    | cons x xs => simp at hb; subst hb; exact ho _ List.mem_cons_self
+  have hrr := C01.schedule_msg_init flags o m0 len kh kc hdrs cts l hg hfit h0
+  simp only at hrr
+  have hv : (oneShotRun (C01.msgP flags) o
+      (m0.init len (hdrs.map fun _ => Array.replicate kh {}) (cts.map fun _ => Array.replicate kc {})) l).2.1 = .ok := by
+    rw [← hrr.2.1, hr]
+  have heq := hrr.eq (Or.inl hv)
+  obtain ⟨b, hb, hone⟩ := oneShotRun_mem (C01.msgP flags) o
+    (m0.init len (hdrs.map fun _ => Array.replicate kh {}) (cts.map fun _ => Array.replicate kc {})) l hne
+  rw [heq, hone] at hr
+  exact ⟨b, hb, fields_inside_consumed b o _ flags (hfit b hb) (msgOK2_init b o (ho b hb) m0 len kh kc hdrs cts)
+    (MsgSafe_init b o (ho b hb) m0 len kh kc hdrs cts) hr⟩
+
+/-- what `MsgRelIn b o' m'` says, field by field (`f.inside o'` is `f.offs + f.len ≤ o'`) -/
+theorem consumed_meaning (b : Buf) (o' : Nat) (m : PSIPMsg) (h : MsgRelIn b o' m) :
+    o' ≤ b.size ∧
+    m.fl.method.inside o' ∧ m.fl.uri.inside o' ∧ m.fl.version.inside o' ∧ m.fl.statusCode.inside o' ∧
+    m.fl.reason.inside o' ∧
+    (∀ k, k < m.hl.n → k < m.hl.hdrs.size → m.hl.hdrs[k]!.name.inside o' ∧ m.hl.hdrs[k]!.val.inside o') ∧
+    (∀ j, j < m.hl.h.size → m.hl.h[j]!.name.inside o' ∧ m.hl.h[j]!.val.inside o') ∧
+    (m.pv.from_.name.inside o' ∧ m.pv.from_.uri.inside o' ∧ m.pv.from_.tag.inside o' ∧ m.pv.from_.params.inside o' ∧
+      m.pv.from_.v.inside o') ∧
+    (m.pv.to.name.inside o' ∧ m.pv.to.uri.inside o' ∧ m.pv.to.tag.inside o' ∧ m.pv.to.params.inside o' ∧
+      m.pv.to.v.inside o') ∧
+    m.pv.callid.callID.inside o' ∧
+    (m.pv.cseq.cseq.inside o' ∧ m.pv.cseq.method.inside o' ∧ m.pv.cseq.v.inside o') ∧
+    m.pv.clen.sVal.inside o' ∧ m.pv.expires.sVal.inside o' ∧
+    m.pv.contacts.lastHVal.inside o' ∧
+    (∀ k, k < m.pv.contacts.n → k < m.pv.contacts.vals.size →
+      m.pv.contacts.vals[k]!.name.inside o' ∧ m.pv.contacts.vals[k]!.uri.inside o' ∧
+      m.pv.contacts.vals[k]!.params.inside o' ∧ m.pv.contacts.vals[k]!.v.inside o') ∧
+    m.pv.pais.lastHVal.inside o' ∧
+    (∀ k, k < m.pv.pais.n → k < m.pv.pais.vals.size →
+      m.pv.pais.vals[k]!.name.inside o' ∧ m.pv.pais.vals[k]!.uri.inside o' ∧ m.pv.pais.vals[k]!.v.inside o') :=
+  ⟨h.fl.ho, h.fl.method, h.fl.uri, h.fl.version, h.fl.statusCode, h.fl.reason,
+   (fun k h1 h2 => h.hl.stored k h1 h2), (fun j hj => h.hl.hI j hj),
+   ⟨h.pv.from_.name, h.pv.from_.uri, h.pv.from_.tag, h.pv.from_.params, h.pv.from_.v⟩,
+   ⟨h.pv.to.name, h.pv.to.uri, h.pv.to.tag, h.pv.to.params, h.pv.to.v⟩,
+   h.pv.callid, h.pv.cseq, h.pv.clen, h.pv.expires, h.pv.contacts.lhv,
+   (fun k h1 h2 => ⟨(h.pv.contacts.stored k h1 h2).name, (h.pv.contacts.stored k h1 h2).uri,
+     (h.pv.contacts.stored k h1 h2).params, (h.pv.contacts.stored k h1 h2).v⟩),
+   h.pv.pais.lhv,
+   (fun k h1 h2 => ⟨(h.pv.pais.stored k h1 h2).name, (h.pv.pais.stored k h1 h2).uri, (h.pv.pais.stored k h1 h2).v⟩)⟩
 
 /-- **every reported field lies inside the buffer, whatever the verdict** (restated from C04) -/
 theorem fields_inside_buffer (b : Buf) (o : Nat) (m : PSIPMsg) (flags : Nat) (hfit : b.size ≤ 65535)
